@@ -9,7 +9,9 @@ RULE = ("k objects bound to ONE file enter a common buffered state (one backend-
         "entered together); BFS over every assignment of reads / distinguishable writes (root and nested child) to the "
         "objects, then the contexts are left in EVERY order; a read through any object must return the shared reference "
         "content, the file after the common exit must contain every write, every object must show it afterwards; the "
-        "checker itself performs no observation inside the context; non-trivial = distinct reached states")
+        "checker itself performs no observation inside the context; with two successive sessions also unbuffered operations "
+        "between them, one of which adds a marker that the second session may remove again (the buffered bytes return to a "
+        "value an earlier session had seen); non-trivial = distinct reached states")
 BOUNDS = {"quick": "k=2, <=4 operations, both context kinds, all exit orders, Buffered/MemoryBuffered x dict/list",
           "thorough": "k=2 <=5 operations all 8 classes; k=3 <=4 operations"}
 ASSUMPTIONS = ["objects on one file are always in the same buffered state when operations are issued (documented requirement)",
@@ -29,7 +31,21 @@ def alphabet(ref, task):
     ev = []
     if not active:
         if ref.session < sessions:
-            return [("enter_cls", None), ("enter", 0)]
+            ev = [("enter_cls", None), ("enter", 0)]
+            if task["extra"].get("aba") and task["extra"].get("aba_ctx") == "cls":
+                ev = [("enter_cls", None)]
+            if ref.session >= 1 and task["extra"].get("aba") and ref.between_ops < 2:
+                # between two sessions, unbuffered: the LAST object adds a marker entry (which the next session may
+                # remove again: the file content then returns to exactly what an earlier session had seen), anyone reads
+                roots = [h for h in ref.attached_handles() if not ref.handles[h]["path"]]
+                last = roots[-1]
+                node = ref.node(last)
+                if ref.rootkind == "dict" and "aba" not in node:
+                    ev.append(("op", last, "setitem", ("aba", 1)))
+                elif ref.rootkind == "list" and (not node or node[-1] != "aba"):
+                    ev.append(("op", last, "append", ("aba",)))
+                ev += [("op", h, "call", ()) for h in roots]
+            return ev
         if ref.session and task["extra"].get("post_reads", True) and not _last_was_post_read(task):
             return [("op", h, "call", ()) for h in ref.attached_handles() if not ref.handles[h]["path"]]
         return []
@@ -45,16 +61,25 @@ def alphabet(ref, task):
             tag = "w%d" % task["level"]
             if not hd["path"]:
                 ev.append(("op", h, "call", ()))
+                node = ref.node(h)
+                if task["extra"].get("aba"):
+                    if kind_ == "dict" and "aba" in node:
+                        ev.append(("op", h, "delitem", ("aba",)))
+                    elif kind_ == "list" and node and node[-1] == "aba":
+                        ev.append(("op", h, "pop", ()))
+                lean = task["extra"].get("aba")
                 if kind_ == "dict":
                     ev.append(("op", h, "setitem", (tag, task["level"])))
-                    ev.append(("op", h, "setpath", (("c",), tag, task["level"])))
+                    if not lean:
+                        ev.append(("op", h, "setpath", (("c",), tag, task["level"])))
                     if task["extra"].get("rich"):
                         ev.append(("op", h, "delitem", ("k",)))
                         ev.append(("op", h, "reset", ({tag: task["level"]},)))
                         ev.append(("op", h, "clear", ()))
                 else:
                     ev.append(("op", h, "append", (tag,)))
-                    ev.append(("op", h, "setpath", ((1,), tag, task["level"])))
+                    if not lean:
+                        ev.append(("op", h, "setpath", ((1,), tag, task["level"])))
                     if task["extra"].get("rich"):
                         ev.append(("op", h, "delitem", (0,)))
                         ev.append(("op", h, "reset", ([tag],)))
@@ -124,21 +149,26 @@ def plan(tier, seed):
             variants.append((2, 2, 2))  # two successive common sessions, 2 operations each
             if tier != "quick":
                 variants.append((2, 3, 2))
-            variants = [(k, m, ns, ch) for k, m, ns in variants for ch in (False, True)
+            variants = [(k, m, ns, ch, False) for k, m, ns in variants for ch in (False, True)
                         if not (tier == "quick" and ns == 2 and ch and fam != "Buffered")]
-            for k, maxops, nsess, childhandles in variants:
+            # two sessions with unbuffered operations in between and a marker that can be removed again (lean alphabet)
+            variants.append((2, 2, 2, False, True))
+            if tier != "quick":
+                variants.append((3, 2, 2, False, True))
+            for k, maxops, nsess, childhandles, aba in variants:
                 # childhandles: every object also retains a nested child obtained BEFORE the contexts
                 cfg = seq.Config(c, initial=(INIT[kind_],), objects=(0,) * k,
                                  prefix=tuple(nav(o) for o in range(k)) if childhandles else
                                  tuple(("op", o, "len", ()) for o in range(k)),
-                                 label="%s/%dobj%s" % (c, k, "/childhandles" if childhandles else ""),
+                                 label="%s/%dobj%s%s" % (c, k, "/childhandles" if childhandles else "", "/aba" if aba else ""),
                                  options={"track_sessions": True})
-                depth = (k + maxops + k) * nsess + 1
+                depth = (k + maxops + k) * nsess + 1 + (2 if aba else 0)
                 kw = dict(label="%s/ops%d/sess%d" % (cfg.label, maxops, nsess), cfg=cfg, alphabet="alphabet", depth=depth,
                           oracles={"result", "resource", "nowrite", "ctxerr"}, hooks="probe",
-                          extra={"maxops": maxops, "rich": nsess == 1, "depth": depth, "sessions": nsess})
+                          extra={"maxops": maxops, "rich": nsess == 1, "depth": depth, "sessions": nsess,
+                                 "aba": aba, "aba_ctx": "cls" if tier == "quick" else "both"})
                 kw["extra"]["depth"] = depth
-                t = seqcheck.split(2, **kw)
+                t = seqcheck.split(8 if aba else 2, level=2 if aba else 1, **kw)
                 for x in t:
                     x["depth"] = depth
                 tasks += t
